@@ -747,7 +747,7 @@ func genWithProfile(prop string, seed uint64, idx int, r *Rng, p Profile) *Scena
 		ok := false
 		for i := 2; i < len(sc.Rotation) && !ok; i++ {
 			prev, cur := &sc.Rotation[i-1], &sc.Rotation[i]
-			if isPerennial(prev.Crop) || isPerennial(cur.Crop) || prev.LatestHarv.Y == 0 || prev.LatestHarv.Zeit() >= sc.End.Zeit()-60 {
+			if isPerennial(prev.Crop) || isPerennial(cur.Crop) || prev.LatestHarv.Y == 0 || prev.LatestHarv.Zeit() >= sc.End.Zeit()-60 || sc.AutoRows[prev.Crop] == nil || sc.AutoRows[prev.Crop].FixedHarvest {
 				continue
 			}
 			sow := prev.LatestHarv.AddDays(-rh.Range(0, 3))
@@ -1883,6 +1883,8 @@ type AutoRow struct {
 	Crop                   string
 	Sow1, Sow2, Har2       int // day of year in a normal year (rendered as day+month in the configured date format)
 	FixedSowing            bool
+	FixedHarvest           bool // har2 = 0000: the rotation file's harvest date is the latest harvest date
+	fixedHarvestDrawn      bool
 	TS                     float64
 	TSIsMax                bool
 	SMoMin, SMoMax         float64
@@ -2081,6 +2083,20 @@ func genAuto(sc *Scenario, r *Rng) {
 		tl = append(tl, t)
 	}
 	sc.Till = tl
+	// an eighth of the table rows carry no latest harvest date (0000): the harvest date of the rotation file is then the latest
+	// date (the harvest on demand has no moisture band in that case), so the configured latest date is the rotation's own
+	rfh := NewRng(mix(mix(sc.Seed, uint64(sc.Index)), 4401))
+	for _, e := range sc.Rotation[1:] {
+		if a := sc.AutoRows[e.Crop]; a != nil && !a.fixedHarvestDrawn {
+			a.fixedHarvestDrawn = true
+			a.FixedHarvest = rfh.Bool(0.125)
+		}
+	}
+	for i := 1; i < len(sc.Rotation); i++ {
+		if a := sc.AutoRows[sc.Rotation[i].Crop]; a != nil && a.FixedHarvest {
+			sc.Rotation[i].LatestHarv = sc.Rotation[i].Harvest
+		}
+	}
 	sc.rebuildAutoman()
 }
 
@@ -2123,7 +2139,11 @@ func (a *AutoRow) line(dateFormat int) string {
 		put(buf, 4, dm(a.Sow1))
 	}
 	put(buf, 9, dm(a.Sow2))
-	put(buf, 14, dm(a.Har2))
+	if a.FixedHarvest {
+		put(buf, 14, "0000")
+	} else {
+		put(buf, 14, dm(a.Har2))
+	}
 	put(buf, 19, fmt.Sprintf("%4.1f", a.TS))
 	if a.TSIsMax {
 		put(buf, 24, "x")
